@@ -1742,6 +1742,24 @@ theorem vacuum_same_crystal (st : SFStatic K) (shift : V3 K) (s0 s1 s2 : C04.Siz
       = (buildSurface st shift s0 s1 s2 none).box.vects.row i) :=
   ⟨rfl, rfl, (vacuum_symmetric st.cut _ v).1⟩
 
+/-- **stored_system_same_crystal**: after ANY history of calls the stored system (if there is one) is non-periodic
+    only across the cut and holds, for one shift and three non-zero multipliers, `m_a m_b m_c` copies of every atom
+    of the rotated cell — same type and per-atom values — at the original position plus that shift plus a lattice
+    vector of the rotated cell (the clause `surface_same_crystal` proves for a single build). -/
+theorem stored_system_same_crystal (st : SFStatic K) (hdet : M3.det st.rbox.vects ≠ 0) (hfl : C05.IsFloor st.fl)
+    (o0 : SFState K) (h0 : Built st o0) (ops : List (SFOp K)) (s : SurfSys K)
+    (hs : (sfRun st o0 ops).1.system = some s) :
+    s.pbc = cutPbc st.cut ∧ ∃ (sh : V3 K) (s0 s1 s2 : C04.Size),
+      s.atoms.length = s2.mult.toNat * (s1.mult.toNat * (s0.mult.toNat * st.ratoms.length)) ∧
+      ∀ a' ∈ s.atoms, ∃ a ∈ st.ratoms, ∃ n : IV, a'.atype = a.atype ∧ a'.extra = a.extra ∧
+        a'.pos = a.pos + sh + C05.latticeVec st.rbox.vects n := by
+  obtain ⟨sh, s0, s1, s2, vac, m0, m1, m2, rfl⟩ := sfRun_built st ops o0 h0 s hs
+  obtain ⟨_, hl, hat⟩ := surface_same_crystal st.rbox hdet s0 s1 s2 m0 m1 m2 st.fl hfl sh st.ratoms
+  refine ⟨rfl, sh, s0, s1, s2, hl, ?_⟩
+  intro a' ha'
+  obtain ⟨a, ha, n, e1, e2, e3, _⟩ := hat a' ha'
+  exact ⟨a, ha, n, e1, e2, e3⟩
+
 end objectClauses
 
 /-! ## non-vacuity: the hypotheses of the theorems above are satisfiable (concrete runs of the model) -/
